@@ -533,14 +533,21 @@ func (db *DB) loadIndexFromDataFiles(fileIds []uint32, nonMergeFileId uint32) er
 			dataFile = db.olderFiles[fileId]
 		}
 		reader := dataFile.NewReader()
+		// 最后一条完整记录的位置
+		var lastPos *datafile.DataPos
 		for {
 			logRecord, pos, err := reader.NextLogRecord()
 			if err != nil {
 				if err == io.EOF {
 					break
 				}
+				// 最新数据文件末尾的记录可能因崩溃而不完整, 视为日志末尾而非数据损坏
+				if fileId == db.activeFile.ID && (err == datafile.ErrInvalidCRC || err == io.ErrUnexpectedEOF) {
+					break
+				}
 				return err
 			}
+			lastPos = pos
 			batchID := logRecord.BatchID
 			// 判断当前日志记录是否属于批处理
 			if logRecord.BatchID == 0 {
@@ -563,6 +570,13 @@ func (db *DB) loadIndexFromDataFiles(fileIds []uint32, nonMergeFileId uint32) er
 						Pos:    pos,
 					})
 				}
+			}
+		}
+		// 将活跃文件的逻辑末尾调整到最后一条完整记录之后
+		// 丢弃不完整的记录及预分配区域, 保证后续追加的数据可被正确读取
+		if fileId == db.activeFile.ID {
+			if err := dataFile.TruncateTo(lastPos); err != nil {
+				return err
 			}
 		}
 	}
